@@ -756,10 +756,16 @@ impl rustc_driver::Callbacks for Cb {
             }
             let mut adts = Vec::new();
             let mut consts = Vec::new();
+            let mut foreign = Vec::new();
             for ldid in tcx.iter_local_def_id() {
                 let did = ldid.to_def_id();
                 match tcx.def_kind(did) {
                     DefKind::Struct | DefKind::Enum | DefKind::Union => adts.push(cx.adt(did)),
+                    DefKind::Fn if tcx.is_foreign_item(did) => {
+                        // declarations of foreign functions (bindgen output): path and signature, no body
+                        let sig = tcx.fn_sig(did).instantiate_identity().skip_norm_wip().skip_binder();
+                        foreign.push(J::obj(vec![("path", J::s(cx.path(did))), ("sig", J::s(cx.fix(format!("{}", sig))))]));
+                    }
                     DefKind::Const { .. } | DefKind::AssocConst { .. } | DefKind::Static { .. } => {
                         if let Some(c) = cx.konst(did) {
                             consts.push(c);
@@ -773,6 +779,7 @@ impl rustc_driver::Callbacks for Cb {
                 ("bodies", J::Arr(bodies)),
                 ("adts", J::Arr(adts)),
                 ("consts", J::Arr(consts)),
+                ("foreign_fns", J::Arr(foreign)),
             ]);
             root.write(&mut out);
         }));
